@@ -1481,7 +1481,7 @@ class DeepSite(Site):
 
 
 # ---------------------------------------------------------------------------
-# K16: the translated emission loop vs the method text the real generator produces
+# K19: the translated emission loop vs the method text the real generator produces
 # ---------------------------------------------------------------------------
 FB_TEXT = {"int(value)": "KInt", "float(value)": "KFloat", "bool(value)": "KBool", "str(value)": "KStr", "None": "KNone"}
 TM_NAME = {"int": "KInt", "float": "KFloat", "bool": "KBool", "str": "KStr", "NoneType": "KNone"}
@@ -1531,11 +1531,11 @@ def parse_union_source(src: str):
     return codes
 
 
-def k16_part(ctx: vlib.Ctx, mod):
-    """(T) validation of kernel K16: for real unions, the line shapes of the generated method must be what the
-    translated loop (coq/gen/K16.v) emits for the same member list."""
-    if not ctx.kernel_report.get("K16", {}).get("ok", False):
-        ctx.not_shown("kernel K16", str(ctx.kernel_report.get("K16", {}).get("error")))
+def k19_part(ctx: vlib.Ctx, mod):
+    """(T) validation of kernel K19: for real unions, the line shapes of the generated method must be what the
+    translated loop (coq/gen/K19.v) emits for the same member list."""
+    if not ctx.kernel_report.get("K19", {}).get("ok", False):
+        ctx.not_shown("kernel K19", str(ctx.kernel_report.get("K19", {}).get("error")))
         return
     rng = ctx.rng
     exprs = [e for e in CURATED_UNIONS if not e.startswith("Optional[")]
@@ -1553,7 +1553,7 @@ def k16_part(ctx: vlib.Ctx, mod):
             continue
         src = capture_union_source(mod, tp)
         if src is None:
-            ctx.not_shown("kernel K16 validation", f"no union method compiled for {expr}")
+            ctx.not_shown("kernel K19 validation", f"no union method compiled for {expr}")
             continue
         codes = parse_union_source(src)
         nonscalar = [m for m in members if m not in SCALARS and m is not typing.Any]
@@ -1563,11 +1563,11 @@ def k16_part(ctx: vlib.Ctx, mod):
         lite = [f"LS {KIND[m]}" if m in SCALARS else f"LN {i} {'true' if m is typing.Any else 'false'}" for i, m in enumerate(members)]
         cases.append(f"([{'; '.join(lite)}], [{'; '.join(codes)}])")
         info.append((expr, " ".join(codes)))
-        ctx.count(("k16", tuple(member_label(m) for m in members)))
-    ctx.hist("k16_validation", "compared", len(cases))
-    ctx.hist("k16_validation", "skipped-duplicate-expression", skipped)
-    corr(ctx, "K16-translation-vs-generated-source", cases, info, "list mlite * list lcode", ["k16case_ok"],
-         imports="UnionModel UnionEmit K16Cases", gen_imports="From VerifGen Require Import K16.", needs=("theories/K16Cases.vo",))
+        ctx.count(("k19", tuple(member_label(m) for m in members)))
+    ctx.hist("k19_validation", "compared", len(cases))
+    ctx.hist("k19_validation", "skipped-duplicate-expression", skipped)
+    corr(ctx, "K19-translation-vs-generated-source", cases, info, "list mlite * list lcode", ["k19case_ok"],
+         imports="UnionModel UnionEmit K19Cases", gen_imports="From VerifGen Require Import K19.", needs=("theories/K19Cases.vo",))
 
 
 THEOREMS = [
@@ -1587,7 +1587,7 @@ def run(ctx: vlib.Ctx):
         "dataclass field, List element; inputs: 62 basic-form values of every scalar class, lists, dicts and garbage. "
         "distinct = (member mix in order, path, input class, verdict class, outcome). Literal: 1-4 listed values of "
         "int/bool/str/None/enum/bytes x 27 inputs.")
-    ctx.theorems("props/C11_union.vo", THEOREMS, kernels=["K16"])
+    ctx.theorems("props/C11_union.vo", THEOREMS, kernels=["K19"])
     ctx.trusted += [
         "UnionModel.v is hand-written from UnionUnpackerBuilder._add_body / pack_union / LiteralUnpackerBuilder / expr_or_maybe_none; "
         "tied to /repo only behaviourally (correspondence on every run), parametric in the member (un)packers whose behaviour is "
@@ -1616,7 +1616,7 @@ def run(ctx: vlib.Ctx):
     shapes_part(ctx, mod, mem)
     typevar_part(ctx, mod, mem)
     deep_part(ctx, mod, mem)
-    k16_part(ctx, mod)
+    k19_part(ctx, mod)
 
 
 # ---------------------------------------------------------------------------
